@@ -22,6 +22,7 @@ _SOURCE = [
     "V.C12.results_shape",
     "V.C12.results_index",
     "V.C12.success_sound",
+    "V.C12.success_sound_spec",
     "V.C12.wasValidAt_spec",
     "V.C12.success_complete",
     "V.C12.fetch_minimal",
